@@ -451,6 +451,18 @@ def _clean_up_state(state: State) -> None:
             and flow_state.activated == 0
         ):
             states_to_be_removed.append(flow_state.uid)
+    # Keep flow states that are still the parent of a remaining flow, e.g. of an
+    # activated flow that outlives the flow that first activated it
+    parent_of_remaining_flow_found = True
+    while parent_of_remaining_flow_found:
+        parent_of_remaining_flow_found = False
+        for flow_state in state.flow_states.values():
+            if (
+                flow_state.uid not in states_to_be_removed
+                and flow_state.parent_uid in states_to_be_removed
+            ):
+                states_to_be_removed.remove(flow_state.parent_uid)
+                parent_of_remaining_flow_found = True
     for flow_state_uid in states_to_be_removed:
         flow_state = state.flow_states[flow_state_uid]
         if (
